@@ -185,6 +185,36 @@ pub fn journal_case<C: Serialize>(prop: &str, sub: &str, case: &C) {
     });
 }
 
+/// this thread has finished its work: an idle journal is not a stalled one
+pub fn journal_done() {
+    JOURNAL.with(|j| {
+        if let Some(f) = j.borrow_mut().as_mut() {
+            use std::os::unix::fs::FileExt;
+            let _ = f.write_all_at(b"0\n", 0);
+            let _ = f.set_len(2);
+        }
+    });
+}
+
+/// journal files that hold a case and have not been rewritten for `secs` seconds
+pub fn stalled_journals(dir: &str, secs: u64) -> usize {
+    let mut n = 0;
+    if let Ok(rd) = std::fs::read_dir(dir) {
+        for e in rd.flatten() {
+            if let Ok(md) = e.metadata() {
+                if md.len() > 2 {
+                    if let Ok(age) = md.modified().and_then(|m| m.elapsed().map_err(|e| std::io::Error::new(std::io::ErrorKind::Other, e))) {
+                        if age.as_secs() >= secs {
+                            n += 1;
+                        }
+                    }
+                }
+            }
+        }
+    }
+    n
+}
+
 /// the cases found in a journal directory (one per thread that ever checked a case)
 pub fn read_journal(dir: &str) -> Vec<J> {
     let mut out = vec![];
@@ -656,6 +686,7 @@ impl Ctx {
                         }
                     }
                     merged.lock().unwrap().merge(std::mem::take(&mut w.stats));
+                    journal_done();
                     done.fetch_add(1, Ordering::SeqCst);
                 }).expect("spawn worker");
             }
@@ -708,6 +739,7 @@ impl Ctx {
                         i += threads;
                     }
                     merged.lock().unwrap().merge(std::mem::take(&mut w.stats));
+                    journal_done();
                     done.fetch_add(1, Ordering::SeqCst);
                 }).expect("spawn worker");
             }
@@ -824,6 +856,7 @@ impl Ctx {
                 _ => {}
             }
         }
+        journal_done();
         *self.active_kf.lock().unwrap() = Arc::new(active);
     }
 
